@@ -102,6 +102,20 @@ func (o *op) encode() (method string, args []byte, err error) {
 	case "penalty":
 		(&gov.TransferPenaltyParam{PeerPubkey: keyOf(o.Peer), Address: addrOf(o.Addr)}).Serialization(sink)
 		method = gov.TRANSFER_PENALTY
+	case "peercost": // C10 only (not an operation of the C11 model)
+		if err := (&gov.SetPeerCostParam{PeerPubkey: keyOf(o.Peer), Address: addrOf(o.Addr), PeerCost: o.Amount}).Serialization(sink); err != nil {
+			return "", nil, err
+		}
+		method = gov.SET_PEER_COST
+	case "feepct": // C10 only
+		p := &gov.SetFeePercentageParam{PeerPubkey: keyOf(o.Peer), Address: addrOf(o.Addr), PeerCost: o.Amount}
+		if len(o.Pos) > 0 {
+			p.StakeCost = o.Pos[0]
+		}
+		if err := p.Serialization(sink); err != nil {
+			return "", nil, err
+		}
+		method = gov.SET_FEE_PERCENTAGE
 	default:
 		return "", nil, fmt.Errorf("bad op kind %q", o.Kind)
 	}
